@@ -160,3 +160,89 @@ def dispatchers():
     """functions of vm.py that call self._execute_opcode (the run loops)"""
     vm = source().modules["microjs.vm"].tree
     return [f for f in ast.walk(vm) if isinstance(f, ast.FunctionDef) and calls_to(f, "_execute_opcode")]
+
+
+# ---- order-sensitive uses of sets (hash-seed dependent iteration order), by a small type inference -------------------
+def set_consumers(tree, set_funcs=frozenset(), collect_returns=None):
+    out = []
+    for f in ast.walk(tree):
+        if not isinstance(f, (ast.FunctionDef,)):
+            continue
+        setnames = set()
+        def is_set(e):
+            if isinstance(e, (ast.Set, ast.SetComp)):
+                return True
+            if isinstance(e, ast.Call):
+                fn = e.func
+                if isinstance(fn, ast.Name) and (fn.id in ("set", "frozenset") or fn.id in set_funcs):
+                    return True
+                if isinstance(fn, ast.Attribute) and fn.attr in set_funcs:
+                    return True
+                if isinstance(fn, ast.Attribute) and fn.attr in ("union", "intersection", "difference", "symmetric_difference", "copy") and is_set(fn.value):
+                    return True
+            if isinstance(e, ast.BinOp) and isinstance(e.op, (ast.Sub, ast.BitOr, ast.BitAnd, ast.BitXor)):
+                def viewish(x):
+                    return isinstance(x, ast.Call) and isinstance(x.func, ast.Attribute) and x.func.attr in ("keys", "items")
+                return is_set(e.left) or is_set(e.right) or viewish(e.left) or viewish(e.right)
+            if isinstance(e, ast.Name):
+                return e.id in setnames
+            if isinstance(e, ast.IfExp):
+                return is_set(e.body) or is_set(e.orelse)
+            return False
+        changed = True
+        while changed:
+            changed = False
+            for n in ast.walk(f):
+                pairs = []
+                if isinstance(n, ast.Assign):
+                    pairs = [(t, n.value) for t in n.targets]
+                elif isinstance(n, ast.AnnAssign):
+                    ann = ast.unparse(n.annotation)
+                    if isinstance(n.target, ast.Name) and (ann.startswith("Set[") or ann.startswith("set") or ann.startswith("FrozenSet")) and n.target.id not in setnames:
+                        setnames.add(n.target.id); changed = True
+                    if n.value is not None:
+                        pairs = [(n.target, n.value)]
+                elif isinstance(n, ast.AugAssign):
+                    pairs = [(n.target, n.value)]
+                for t, v in pairs:
+                    if isinstance(t, ast.Name) and t.id not in setnames and is_set(v):
+                        setnames.add(t.id); changed = True
+            for a in f.args.args + f.args.kwonlyargs:
+                if a.annotation is not None and ast.unparse(a.annotation).lower().startswith(("set", "frozenset", "optional[set")) and a.arg not in setnames:
+                    setnames.add(a.arg); changed = True
+        if collect_returns is not None:
+            ann = ast.unparse(f.returns).lower() if f.returns is not None else ""
+            if ann.startswith(("set", "frozenset")) or any(isinstance(n, ast.Return) and n.value is not None and is_set(n.value) for n in ast.walk(f)):
+                collect_returns.add(f.name)
+        for n in ast.walk(f):
+            if isinstance(n, ast.For) and is_set(n.iter):
+                out.append((f.name, n.lineno, "for " + ast.unparse(n.target) + " in " + ast.unparse(n.iter)))
+            if isinstance(n, (ast.ListComp, ast.GeneratorExp, ast.DictComp)):
+                for g in n.generators:
+                    if is_set(g.iter):
+                        out.append((f.name, n.lineno, ast.unparse(n)[:80]))
+            if isinstance(n, ast.Call):
+                fn = n.func
+                nm = fn.id if isinstance(fn, ast.Name) else (fn.attr if isinstance(fn, ast.Attribute) else "")
+                if nm in ("list", "tuple", "enumerate", "iter", "next", "zip", "fromkeys", "join", "extend", "map", "filter", "reversed") and any(is_set(a) for a in n.args):
+                    out.append((f.name, n.lineno, ast.unparse(n)[:80]))
+                if isinstance(fn, ast.Attribute) and fn.attr == "pop" and is_set(fn.value) and not n.args:
+                    out.append((f.name, n.lineno, ast.unparse(n)[:80]))
+            if isinstance(n, ast.Starred) and is_set(n.value):
+                out.append((f.name, n.lineno, ast.unparse(n)[:80]))
+    return out
+
+def scan_all(modules):
+    funcs = set()
+    while True:
+        new = set()
+        for mod, mi in modules.items():
+            set_consumers(mi.tree, frozenset(funcs), new)
+        if new <= funcs:
+            break
+        funcs |= new
+    res = []
+    for mod, mi in modules.items():
+        for c in set_consumers(mi.tree, frozenset(funcs)):
+            res.append((mod,) + c)
+    return res, funcs
